@@ -153,7 +153,7 @@ func (s *c36Side) term(max int) (string, []string, bool, error) {
 		s.m.count("_batches_sent"), s.m.count("_messages_sent")}
 	ops := append(append([]string{}, s.ops...), "Stop")
 	human = append(human, fmt.Sprintf("gauge=%d counters[20x,resp_err,send_err,retries,batches,msgs]=%v sleeps=%v", s.m.gauge(), cnt, sleeps))
-	return fmt.Sprintf("{| c_max := %s; c_bt := %s; c_t0 := %s; c_ops := %s; c_beh := %s; c_bad := []; c_reqs := %s; c_sleeps := %s; c_syncs := []; c_sync_timeouts := 0%%N; c_gauge := %s; c_cnt := %s; c_burst := [] |}",
+	return fmt.Sprintf("{| c_max := %s; c_bt := %s; c_t0 := %s; c_ops := %s; c_beh := %s; c_bad := []; c_reqs := %s; c_sleeps := %s; c_syncs := []; c_sync_timeouts := 0%%N; c_gauge := %s; c_cnt := %s; c_burst := []; c_bad_bodies := 0%%N |}",
 		cq.Z(int64(max)), cq.Z(c36BT), cq.Z(s.t0), cq.List(ops), cq.List(behTerms), cq.List(reqTerms),
 		cq.ListZ(sleeps), cq.Z(s.m.gauge()), cq.ListZ(cnt)), human, retriedFlush, nil
 }
